@@ -47,3 +47,15 @@ Definition flex_absolute_pass_skips {S : Type} (position : S -> GPosition) (box_
    in the translated item pipeline, in the hidden loop, in the absolute pass (addressed to that loop's child), or in one of the item
    functions, addressed to `<item>.node`: determine_flex_base_size:get_flexbox_child_style determine_flex_base_size:measure_child_size determine_flex_base_size:measure_child_size determine_container_main_size:measure_child_size determine_hypothetical_cross_size:measure_child_size calculate_children_base_lines:perform_child_layout determine_used_cross_size:get_flexbox_child_style calculate_flex_item:perform_child_layout calculate_flex_item:set_unrounded_layout *)
 Definition flex_tree_calls_address_item_only : bool := true.
+Definition grid_final_loop_hidden_test {S : Type} (position : S -> GPosition) (box_generation_mode : S -> GBoxGenerationMode) (child_style : S) : bool :=
+  (GBoxGenerationMode_eqb (box_generation_mode child_style) BoxGenerationMode_None).
+Definition grid_final_loop_absolute_test {S : Type} (position : S -> GPosition) (box_generation_mode : S -> GBoxGenerationMode) (child_style : S) : bool :=
+  (GPosition_eqb (position child_style) Position_Absolute).
+(* checked syntactically: the hidden branch is tree.perform_child_layout(child, Size::NONE, Size::NONE, Size::MAX_CONTENT,
+   SizingMode::InherentSize, Line::FALSE); tree.set_unrounded_layout(child, &Layout::with_order(order)); order += 1; return *)
+Definition grid_hidden_branch_is_canonical : bool := true.
+(* checked syntactically: the absolute branch calls align_and_position_item(tree, child, order, ..) once, no other node call, order += 1 *)
+Definition grid_absolute_branch_is_local : bool := true.
+(* checked syntactically: every call of the grid sources on `tree` that addresses a node (perform_child_layout measure_child_size set_unrounded_layout compute_child_layout get_grid_child_style) is in the
+   translated child iterators, in the final loop (addressed to that loop's child), or one of: resolve_item_baselines:perform_child_layout align_and_position_item:get_grid_child_style align_and_position_item:perform_child_layout align_and_position_item:set_unrounded_layout min_content_contribution:measure_child_size max_content_contribution:measure_child_size *)
+Definition grid_tree_calls_address_item_only : bool := true.
